@@ -40,13 +40,15 @@ func (is Instructions) Pass(pass int) bool {
 
 // Assemble the instructions into an Opcode string
 func (is Instructions) Assemble() string {
-	for i := 0; i < 10; i++ {
+	// Each pass which changes something makes at least one
+	// instruction grow for good, so this terminates
+	for i := 0; i < 10+len(is); i++ {
 		changed := is.Pass(i)
 		if !changed {
 			goto done
 		}
 	}
-	panic("Failed to assemble after 10 passes")
+	panic("Failed to assemble")
 done:
 	out := make([]byte, 0, 3*len(is))
 	for _, i := range is {
@@ -375,11 +377,17 @@ type OpArg struct {
 	pos
 	Op  vm.OpCode
 	Arg uint32
+	// set once Arg has needed an EXTENDED_ARG prefix - it is then
+	// kept so that the assembler passes converge
+	extended bool
 }
 
 // Uses 1 byte in the output stream
 func (o *OpArg) Size() uint32 {
-	if o.Arg <= 0xFFFF {
+	if o.Arg > 0xFFFF {
+		o.extended = true
+	}
+	if !o.extended {
 		return 3 // Op Arg1 Arg2
 	} else {
 		return 6 // Extend Arg1 Arg2 Op Arg3 Arg4
@@ -389,7 +397,7 @@ func (o *OpArg) Size() uint32 {
 // Output
 func (o *OpArg) Output() []byte {
 	out := []byte{byte(o.Op), byte(o.Arg), byte(o.Arg >> 8)}
-	if o.Arg > 0xFFFF {
+	if o.Size() == 6 {
 		out = append([]byte{byte(vm.EXTENDED_ARG), byte(o.Arg >> 16), byte(o.Arg >> 24)}, out...)
 	}
 	return out
@@ -441,18 +449,17 @@ type JumpRel struct {
 
 // Set the Arg from the Jump Label
 func (o *JumpRel) Resolve() {
-	currentSize := o.Size()
-	currentPos := o.Pos() + currentSize
+	currentPos := o.Pos() + o.Size()
 	if o.Dest.Pos() < currentPos {
-		panic("JUMP_FORWARD can't jump backwards")
+		// The label still has its position from the previous
+		// pass and the code before it has grown - there will be
+		// another pass
+		o.OpArg.Arg = 0
+		return
 	}
+	// If this makes the instruction grow (it never shrinks again)
+	// the following instructions move and there will be another pass
 	o.OpArg.Arg = o.Dest.Pos() - currentPos
-	if o.Size() != currentSize {
-		// FIXME There is an awkward moment where jump forwards is
-		// between 0x1000 and 0x1002 where the Arg oscillates
-		// between 2 and 4 bytes
-		panic("FIXME compile: JUMP_FOWARDS size changed")
-	}
 }
 
 // Creates the lnotab from the instruction stream
